@@ -14,6 +14,7 @@ import (
 	"unicode/utf8"
 
 	"github.com/zmap/zlint/v3"
+	"github.com/zmap/zlint/v3/formattedoutput"
 	"github.com/zmap/zlint/v3/lint"
 	"pgregory.net/rapid"
 
@@ -472,6 +473,41 @@ func TestC14(t *testing.T) {
 		}
 	})
 	_ = sort.Strings
+	// the library's own summary printer runs in this process, then everything is decoded again: printing is not
+	// allowed to touch the tables that decoding uses
+	{
+		if o := co.Certs; len(o) > 0 {
+			if pc, ok := gen.ParseCert(o[0].DER); ok {
+				rs := zlint.LintCertificate(pc)
+				var sink bytes.Buffer
+				old := os.Stdout
+				if rp, wp, err := os.Pipe(); err == nil {
+					os.Stdout = wp
+					formattedoutput.OutputSummary(rs, false)
+					formattedoutput.OutputSummary(rs, true)
+					wp.Close()
+					os.Stdout = old
+					_, _ = sink.ReadFrom(rp)
+				}
+				for st := -3; st <= 12; st++ {
+					c := c14Case{What: "status-int", Status: st}
+					rec.Eval()
+					if sig, msg := judgeC14(rec, c); msg != "" {
+						if rec.Report("c14", "after-summary|"+sig, msg, c) {
+							t.Errorf("c14 after OutputSummary: %s: %s", sig, msg)
+						}
+					}
+				}
+				ec := engine.Case{Kind: gen.Cert, DER: o[0].DER, Base: o[0].Name}
+				c := c14Case{What: "resultset", Case: &ec}
+				if sig, msg := judgeC14(rec, c); msg != "" {
+					if rec.Report("c14", "after-summary|"+sig, msg, c) {
+						t.Errorf("c14 after OutputSummary: %s: %s", sig, msg)
+					}
+				}
+			}
+		}
+	}
 	// one name registered once per kind (names are unique per kind only): the listing has a line for each
 	registerSameName()
 	for _, f := range []*engine.FilterSpec{nil, {IncludeNames: []string{"e_verif_same_name"}}, {ExcludeNames: []string{"e_ca_country_name_missing"}}, {IncludeSources: []string{"RFC5280", "RFC6960"}}} {
